@@ -178,8 +178,14 @@ func TestDrv_C17(t *testing.T) {
 	base := time.Unix(1700000000, 0)
 	for p := 0; p < plots; p++ {
 		na := 1 + r.Intn(3)
-		atks := make([]plotAtk, na)
 		names := []string{"", "a", "50qps", "attack: B"}
+		if p%8 == 5 { // many attacks in one plot
+			na = 10 + r.Intn(10)
+			for i := 0; i < 20; i++ {
+				names = append(names, fmt.Sprintf("run-%02d", i))
+			}
+		}
+		atks := make([]plotAtk, na)
 		r.Shuffle(len(names), func(i, j int) { names[i], names[j] = names[j], names[i] })
 		down := p%4 == 3 // a plot with downsampling: strictly increasing instants, no ties
 		n := []int{1, 2, 3, 7, 40, 300}[r.Intn(6)]
